@@ -276,6 +276,55 @@ static void alias_case(op_t op, MODULE_TYPE mt, int native, uint64_t N, uint64_t
 
 // limb strides of 4 GiB and more, in a sparse mapping that only reserves address space
 #include <sys/mman.h>
+// one-limb vectors: the stride is never used to reach memory, so every stride >= N is as good as another - including values whose
+// product with the limb count or with 8 wraps 64 bits (2^61, 2^61 - 1, 2^63 + N, UINT64_MAX)
+static void one_limb_stride_case(op_t op, MODULE_TYPE mt, int native, uint64_t N, unsigned rep) {
+  if (op_is_big(op)) return;
+  char key[160];
+  snprintf(key, sizeof key, "%s|one limb, arbitrary stride up to 2^64-1%s%s", op_name[op], mt == NTT120 ? ",ntt120" : "", native ? "" : ",generic");
+  if (!case_begin(key, "N=%" PRIu64 " rep=%u", N, rep)) return;
+  rng_t* r = crng();
+  const MODULE* mod = get_module(N, mt, native);
+  static const uint64_t SL[] = {(1ull << 61) - 1, 1ull << 61, (1ull << 61) + 7, 1ull << 62, UINT64_MAX, (1ull << 63) + 64, (1ull << 60) * 3, 1ull << 32, (1ull << 63)};
+  const uint64_t slr = SL[rep % ARRAY_LEN(SL)], sla = SL[(rep / 2 + 3) % ARRAY_LEN(SL)], slb = SL[(rep / 3 + 5) % ARRAY_LEN(SL)];
+  gbuf_t gr, ga, gb;
+  int64_t* R = gb_alloc(&gr, N * 8, 8, 8 * (rep % 8), 4096);
+  int64_t* A = gb_alloc(&ga, N * 8, 8, 8 * ((rep + 3) % 8), 4096);
+  int64_t* B = gb_alloc(&gb, N * 8, 8, 8 * ((rep + 5) % 8), 4096);
+  for (uint64_t i = 0; i < N; i++) {
+    A[i] = rng_sbits(r, 60);
+    B[i] = rng_sbits(r, 60);
+    R[i] = 0x5555;
+  }
+  int64_t p = rng_sbits(r, 40);
+  if (op == OP_AUTO) p |= 1;
+  const uint64_t as = (rep % 5) == 4 ? 0 : 1, bs = (rep % 7) == 6 ? 0 : 1;  // sometimes an empty operand: the limb is zero-extended
+  switch (op) {
+    case OP_ZERO: vec_znx_zero(mod, R, 1, slr); break;
+    case OP_COPY: vec_znx_copy(mod, R, 1, slr, A, as, sla); break;
+    case OP_NEGATE: vec_znx_negate(mod, R, 1, slr, A, as, sla); break;
+    case OP_ADD: vec_znx_add(mod, R, 1, slr, A, as, sla, B, bs, slb); break;
+    case OP_SUB: vec_znx_sub(mod, R, 1, slr, A, as, sla, B, bs, slb); break;
+    case OP_ROTATE: vec_znx_rotate(mod, p, R, 1, slr, A, as, sla); break;
+    default: vec_znx_automorphism(mod, p, R, 1, slr, A, as, sla); break;
+  }
+  int64_t* e = malloc(N * 8);
+  int64_t* az = calloc(N, 8);
+  for (uint64_t i = 0; i < N; i++) {
+    const int64_t al = as ? A[i] : 0, bl = bs ? B[i] : 0;
+    e[i] = op == OP_ZERO ? 0 : op == OP_COPY ? al : op == OP_NEGATE ? -al : op == OP_ADD ? al + bl : al - bl;
+  }
+  if (op == OP_ROTATE || op == OP_AUTO) ring_map(N, op == OP_AUTO, p, as ? A : az, e);
+  if (memcmp(R, e, N * 8)) viol("oracle", "%s on one-limb vectors with strides res=%" PRIu64 " a=%" PRIu64 " b=%" PRIu64 " words (a_size=%" PRIu64 ", b_size=%" PRIu64 "): the output limb is not the operation applied to the input limb (N=%" PRIu64 ")", op_name[op], slr, sla, slb, as, bs, N);
+  long wh;
+  if (gb_check(&gr, &wh)) viol("canary", "%s: wrote outside the single output limb (%ld)", op_name[op], wh);
+  free(e);
+  free(az);
+  cnt("one_limb_arbitrary_stride_calls", 1);
+  sample("one limb, strides %" PRIu64 " / %" PRIu64 " / %" PRIu64, slr, sla, slb);
+  gb_free(&gr); gb_free(&ga); gb_free(&gb);
+  case_end(1);
+}
 static void huge_stride_case(op_t op, MODULE_TYPE mt, int native, uint64_t N, unsigned rep) {
   if (op_is_big(op)) return;  // big vectors have stride N by definition
   char key[160];
@@ -578,8 +627,10 @@ void run_C08(void) {
         concurrent_case(ALL_N[ni], cfg == 2 ? NTT120 : FFT64, cfg != 1, cfg == 0 ? 8 : 4, rep);
       }
   for (op_t op = OP_ZERO; op <= OP_AUTO; op++)
-    for (int cfg = 0; cfg < 3; cfg++)
+    for (int cfg = 0; cfg < 3; cfg++) {
       for (unsigned rep = 0; rep < 6; rep++) huge_stride_case(op, cfg == 2 ? NTT120 : FFT64, cfg != 1, rep & 1 ? 64 : 8, rep);
+      for (unsigned rep = 0; rep < 18; rep++) one_limb_stride_case(op, cfg == 2 ? NTT120 : FFT64, cfg != 1, rep % 3 == 0 ? 64 : (rep % 3 == 1 ? 8 : 2), rep);
+    }
   // both inputs the same vector
   for (size_t ni = 0; ni < N_ALL_N; ni++) {
     static const op_t BOPS[] = {OP_ADD, OP_SUB, OP_BIG_ADD, OP_BIG_SUB, OP_BIG_ADD_SMALL2, OP_BIG_SUB_SMALL2};
@@ -677,6 +728,17 @@ void run_C08(void) {
       for (int which = 0; which <= 2; which += 2) {
         const uint64_t N = rep & 1 ? 32 : 64;
         ops_ring_history_case(which, N, PA[rep % 8], (rep & 2) ? N : 2, (rep & 2) ? 1 + 2 * (int64_t)(rep % 5) : 1, rep < 16, rep, "long_history_calls");
+      }
+  }
+  // the entry points of this property called a second time on the SAME buffers holding other data (new values, two limbs exchanged,
+  // one word moved between limbs): must equal a fresh call on that data (results or operands remembered by address)
+  {
+    static const char* const RNAMES[] = {"vec_znx_zero", "vec_znx_copy", "vec_znx_negate", "vec_znx_add", "vec_znx_sub", "vec_znx_rotate", "vec_znx_automorphism", "vec_znx_big_add", "vec_znx_big_add_small", "vec_znx_big_add_small2", "vec_znx_big_sub", "vec_znx_big_sub_small_a", "vec_znx_big_sub_small_b", "vec_znx_big_sub_small2", "vec_znx_big_rotate", "vec_znx_big_automorphism", "vec_znx_copy(res==a)", "vec_znx_negate@ntt120", "vec_znx_add@ntt120"};
+    static const uint64_t RN[] = {2, 16, 64, 1024};
+    for (size_t i = 0; i < ARRAY_LEN(RN); i++)
+      for (int cfg = DISP_NATIVE; cfg >= DISP_GENERIC; cfg--) {
+        if (cfg == DISP_GENERIC && (i & 1)) continue;
+        ops_recontent_case("C08 entry points", RNAMES, (int)ARRAY_LEN(RNAMES), RN[i], cfg, G.thorough ? 40 : 6, (unsigned)i, "same_buffers_other_data_calls");
       }
   }
 }
